@@ -182,3 +182,169 @@ Proof.
         rewrite (readRawPointer_other _ _ _ _ _ psid (padAddr + 8) EW4) by (change (zlen (le_encode 8 (rawDoubleFarPointer psid padAddr))) with 8; lia).
         apply (wrote_word_back m2 m3); auto. lia.
 Qed.
+
+(* ------------------------------------------------------------------ resolve_ptr of a placed pointer *)
+Lemma word_at_range (ms : segs) sid a w : word_at ms sid a = Some w ->
+  0 <= sid < zlen ms /\ 0 <= a /\ a + 8 <= seg_len ms sid.
+Proof.
+  unfold word_at, seg_len. cbv zeta.
+  destruct ((0 <=? sid) && (sid <? zlen ms)) eqn:E; [|discriminate].
+  destruct ((0 <=? a) && (a + 8 <=? zlen (nth (Z.to_nat sid) ms []))) eqn:E2; [|discriminate]. intros _. lia.
+Qed.
+
+Lemma decode_obj_eq (m : segs) sid base w base' w' :
+  f_A w = f_A w' -> f_dw w = f_dw w' -> f_pc w = f_pc w' -> f_C w = f_C w' -> f_D w = f_D w' ->
+  base + 8 * f_off w = base' + 8 * f_off w' ->
+  decode_obj m sid base w = decode_obj m sid base' w'.
+Proof. intros E1 E2 E3 E4 E5 E6. unfold decode_obj. cbv zeta. now rewrite E1, E2, E3, E4, E5, E6. Qed.
+
+Definition raw_word (raw : Z) : Prop :=
+  0 <= raw < 18446744073709551616 /\ raw mod 4 < 2 /\ f_off raw = 0 /\ (raw / 4294967296 <> 0 \/ raw mod 4 <> 0).
+
+Lemma in_seg_intro (ms : segs) sid start size :
+  0 <= sid < zlen ms -> 0 <= start -> 0 <= size -> start + size <= seg_len ms sid -> start mod 8 = 0 ->
+  in_seg ms sid start size = true.
+Proof. intros. unfold in_seg. repeat (apply andb_true_intro; split); lia. Qed.
+
+Lemma placed_resolve (ms' : segs) dsid off tsid taddr raw oldlen pads :
+  placed ms' dsid off tsid taddr raw oldlen pads -> raw_word raw ->
+  0 <= off <= 4294967288 -> off mod 8 = 0 -> 0 <= taddr <= 4294967288 -> taddr mod 8 = 0 ->
+  0 <= tsid < 4294967296 -> zlen ms' <= 4294967296 ->
+  (forall i, 0 <= oldlen i <= 4294967288 - 16 /\ oldlen i mod 8 = 0) ->
+  resolve_ptr ms' dsid off = (let '(t, rs) := decode_obj ms' tsid taddr raw in (t, pads ++ rs)).
+Proof.
+  intros Hp (Rw & Rt & Ro & Rnz) Hoff Hoa Hta Htm Hts Hns Hol.
+  assert (Raw0 : f_A raw = raw mod 4) by reflexivity.
+  destruct Hp as [E W|padAddr Hne Epa W1 W2|psid padAddr Hne Hps Epa W1 W2 W3].
+  - (* near *)
+    subst tsid. unfold resolve_ptr. rewrite W.
+    destruct (nearPointerOffset_ok off taddr) as [N1 N2]; try lia.
+    destruct (fields_withOffset raw (nearPointerOffset off taddr) Rw Rt N1) as (Q0 & Q1 & Q2 & Q3 & Q4 & Q5 & Q6 & Q7).
+    cbv zeta in *. set (w := withOffset raw (nearPointerOffset off taddr)) in *.
+    destruct (w =? 0) eqn:E0; [exfalso; apply (Q7 Rnz); lia|].
+    rewrite Q1. destruct (raw mod 4 =? 3) eqn:E3; [lia|]. destruct (raw mod 4 =? 2) eqn:E2; [lia|].
+    rewrite (decode_obj_eq ms' dsid (off + 8) w taddr raw); try congruence; [|rewrite Q2, Ro; lia].
+    destruct (decode_obj ms' dsid taddr raw). reflexivity.
+  - (* far *)
+    destruct (Hol tsid) as [P1 P2]. rewrite <- Epa in P1, P2.
+    unfold resolve_ptr. rewrite W1.
+    destruct (fields_far tsid padAddr Hts ltac:(lia) P2) as (F0 & F1 & F2 & F3 & F4 & F5). cbv zeta in *.
+    set (fw := rawFarPointer tsid padAddr) in *.
+    destruct (fw =? 0) eqn:E0; [lia|]. rewrite F2. change (2 =? 3) with false. change (2 =? 2) with true. cbv iota.
+    rewrite F3, F4, F5. change (0 =? 0) with true. cbv iota.
+    destruct (word_at_range _ _ _ _ W2) as (G1 & G2 & G3).
+    rewrite in_seg_intro by lia. cbn [negb]. rewrite W2.
+    destruct (nearPointerOffset_ok padAddr taddr) as [N1 N2]; try lia.
+    destruct (fields_withOffset raw (nearPointerOffset padAddr taddr) Rw Rt N1) as (Q0 & Q1 & Q2 & Q3 & Q4 & Q5 & Q6 & Q7).
+    cbv zeta in *. set (pw := withOffset raw (nearPointerOffset padAddr taddr)) in *.
+    destruct (pw =? 0) eqn:EP; [exfalso; apply (Q7 Rnz); lia|]. rewrite Q1.
+    destruct (2 <=? raw mod 4) eqn:E2; [lia|]. cbn [orb].
+    rewrite (decode_obj_eq ms' tsid (padAddr + 8) pw taddr raw); try congruence; [|rewrite Q2, Ro; lia].
+    destruct (decode_obj ms' tsid taddr raw). reflexivity.
+  - (* double far *)
+    destruct (Hol psid) as [P1 P2]. rewrite <- Epa in P1, P2.
+    destruct (word_at_range _ _ _ _ W2) as (G1 & G2 & G3).
+    destruct (word_at_range _ _ _ _ W3) as (G4 & G5 & G6).
+    assert (Hpsid : 0 <= psid < 4294967296) by lia.
+    unfold resolve_ptr. rewrite W1.
+    destruct (fields_dfar psid padAddr Hpsid ltac:(lia) P2) as (D0 & D1 & D2 & D3 & D4 & D5). cbv zeta in *.
+    set (dw := rawDoubleFarPointer psid padAddr) in *.
+    destruct (dw =? 0) eqn:E0; [lia|]. rewrite D2. change (2 =? 3) with false. change (2 =? 2) with true. cbv iota.
+    rewrite D3, D4, D5. change (1 =? 0) with false. cbv iota.
+    rewrite in_seg_intro by lia. cbn [negb]. rewrite W2, W3.
+    destruct (fields_far tsid taddr Hts ltac:(lia) Htm) as (F0 & F1 & F2 & F3 & F4 & F5). cbv zeta in *.
+    set (fw := rawFarPointer tsid taddr) in *.
+    rewrite F2, F3. change ((2 =? 2) && (0 =? 0)) with true. cbn [negb].
+    rewrite Raw0, Ro. destruct (2 <=? raw mod 4) eqn:E2; [lia|]. change (0 =? 0) with true. cbn [negb orb].
+    rewrite F4, F5. destruct (decode_obj ms' tsid taddr raw). reflexivity.
+Qed.
+
+(* ------------------------------------------------------------------ stability of a resolved pointer *)
+Definition simple_target (t : target) : Prop :=
+  match t with GNull | GCap _ | GStruct _ _ _ _ | GList _ _ _ _ => True | _ => False end.
+
+Definition grows (ms ms' : segs) : Prop :=
+  zlen ms <= zlen ms' /\ forall i, 0 <= i < zlen ms -> seg_len ms i <= seg_len ms' i.
+
+Lemma in_seg_mono (ms ms' : segs) sid st sz : grows ms ms' -> in_seg ms sid st sz = true -> in_seg ms' sid st sz = true.
+Proof.
+  intros [G1 G2] H. unfold in_seg in *.
+  repeat (apply andb_prop in H; destruct H as [H ?]).
+  specialize (G2 sid ltac:(lia)). repeat (apply andb_true_intro; split); lia.
+Qed.
+
+Lemma decode_obj_stable (ms ms' : segs) sid base w t rs :
+  grows ms ms' -> decode_obj ms sid base w = (t, rs) -> simple_target t -> decode_obj ms' sid base w = (t, rs).
+Proof.
+  intros G H S. unfold decode_obj in *. cbv zeta in *.
+  destruct (f_A w =? 0).
+  - destruct (in_seg ms sid _ _) eqn:E; [|inversion H; subst; cbn in S; contradiction].
+    rewrite (in_seg_mono _ _ _ _ _ G E). exact H.
+  - destruct (f_C w <? 7).
+    + destruct (in_seg ms sid _ _) eqn:E; [|inversion H; subst; cbn in S; contradiction].
+      rewrite (in_seg_mono _ _ _ _ _ G E). exact H.
+    + destruct (negb (in_seg ms sid _ _)); [inversion H; subst; cbn in S; contradiction|].
+      destruct (word_at ms sid _); [|inversion H; subst; cbn in S; contradiction].
+      destruct (negb _); [inversion H; subst; cbn in S; contradiction|].
+      destruct (negb _); inversion H; subst; cbn in S; contradiction.
+Qed.
+
+Lemma decode_obj_one (ms : segs) sid base w t rs :
+  decode_obj ms sid base w = (t, rs) -> simple_target t -> exists r, rs = [r].
+Proof.
+  intros H S. unfold decode_obj in H. cbv zeta in H.
+  destruct (f_A w =? 0).
+  - destruct (in_seg ms sid _ _); inversion H; subst; [eexists; reflexivity|cbn in S; contradiction].
+  - destruct (f_C w <? 7).
+    + destruct (in_seg ms sid _ _); inversion H; subst; [eexists; reflexivity|cbn in S; contradiction].
+    + destruct (negb (in_seg ms sid _ _)); [inversion H; subst; cbn in S; contradiction|].
+      destruct (word_at ms sid (base + 8 * f_off w)); [|inversion H; subst; cbn in S; contradiction].
+      destruct (negb _); [inversion H; subst; cbn in S; contradiction|].
+      destruct (negb _); inversion H; subst; cbn in S; contradiction.
+Qed.
+
+(* the words of a region *)
+Definition word_in (r : region) (i b : Z) : Prop :=
+  i = r_seg r /\ r_start r <= b /\ b + 8 <= r_start r + r_size r.
+
+Lemma resolve_stable (ms ms' : segs) s a t rs :
+  grows ms ms' -> resolve_ptr ms s a = (t, rs) -> simple_target t ->
+  word_at ms' s a = word_at ms s a ->
+  (forall r i b, In r (removelast rs) -> word_in r i b -> word_at ms' i b = word_at ms i b) ->
+  resolve_ptr ms' s a = (t, rs).
+Proof.
+  intros G H S W0 Wp. unfold resolve_ptr in *. rewrite W0.
+  destruct (word_at ms s a) as [w|]; [|inversion H; subst; cbn in S; contradiction].
+  destruct (w =? 0); [exact H|].
+  destruct (f_A w =? 3); [exact H|].
+  destruct (f_A w =? 2).
+  - cbv zeta in *. destruct (f_B w =? 0).
+    + destruct (negb (in_seg ms (f_seg w) (8 * f_padoff w) 8)) eqn:E; [inversion H; subst; cbn in S; contradiction|].
+      assert (E' : in_seg ms (f_seg w) (8 * f_padoff w) 8 = true) by (destruct (in_seg ms _ _ _); auto; discriminate).
+      rewrite (in_seg_mono _ _ _ _ _ G E'). cbn [negb].
+      destruct (word_at ms (f_seg w) (8 * f_padoff w)) as [pw|] eqn:EW; [|inversion H; subst; cbn in S; contradiction].
+      destruct ((pw =? 0) || (2 <=? f_A pw)) eqn:EB; [inversion H; subst; cbn in S; contradiction|].
+      destruct (decode_obj ms (f_seg w) (8 * f_padoff w + 8) pw) as [t0 rs0] eqn:ED.
+      inversion H; subst t rs.
+      rewrite (Wp (mkReg (f_seg w) (8 * f_padoff w) 8) (f_seg w) (8 * f_padoff w)).
+      * rewrite EW, EB. rewrite (decode_obj_stable _ _ _ _ _ _ _ G ED S). reflexivity.
+      * (* the pad is not the last region: the object follows *)
+        destruct (decode_obj_one _ _ _ _ _ _ ED S) as [r0 ->]. cbn [removelast]. left. reflexivity.
+      * unfold word_in. cbn. lia.
+    + destruct (negb (in_seg ms (f_seg w) (8 * f_padoff w) 16)) eqn:E; [inversion H; subst; cbn in S; contradiction|].
+      assert (E' : in_seg ms (f_seg w) (8 * f_padoff w) 16 = true) by (destruct (in_seg ms _ _ _); auto; discriminate).
+      rewrite (in_seg_mono _ _ _ _ _ G E'). cbn [negb].
+      destruct (word_at ms (f_seg w) (8 * f_padoff w)) as [fw|] eqn:EW1; [|inversion H; subst; cbn in S; contradiction].
+      destruct (word_at ms (f_seg w) (8 * f_padoff w + 8)) as [tag|] eqn:EW2; [|inversion H; subst; cbn in S; contradiction].
+      destruct (negb ((f_A fw =? 2) && (f_B fw =? 0))) eqn:EB1; [inversion H; subst; cbn in S; contradiction|].
+      destruct ((2 <=? f_A tag) || negb (f_off tag =? 0)) eqn:EB2; [inversion H; subst; cbn in S; contradiction|].
+      destruct (decode_obj ms (f_seg fw) (8 * f_padoff fw) tag) as [t0 rs0] eqn:ED.
+      inversion H; subst t rs.
+      assert (NL : In (mkReg (f_seg w) (8 * f_padoff w) 16) (removelast (mkReg (f_seg w) (8 * f_padoff w) 16 :: rs0))).
+      { destruct (decode_obj_one _ _ _ _ _ _ ED S) as [r0 ->]. left. reflexivity. }
+      rewrite (Wp _ (f_seg w) (8 * f_padoff w) NL) by (unfold word_in; cbn; lia).
+      rewrite (Wp _ (f_seg w) (8 * f_padoff w + 8) NL) by (unfold word_in; cbn; lia).
+      rewrite EW1, EW2, EB1, EB2. rewrite (decode_obj_stable _ _ _ _ _ _ _ G ED S). reflexivity.
+  - destruct (decode_obj ms s (a + 8) w) as [t0 rs0] eqn:ED. inversion H; subst.
+    rewrite (decode_obj_stable _ _ _ _ _ _ _ G ED S). reflexivity.
+Qed.
